@@ -33,7 +33,9 @@ def runS (r : R String) : String := rOut r id
 
 /-! ### pkt -/
 def opPkt (p : Bytes) : R String := do
-  let _ ← Packet.tryNew p
+  match ← Packet.tryNew p with
+  | none => pure "nosync"
+  | some _ =>
   let tei ← Packet.tei p; let pusi ← Packet.pusi p; let prio ← Packet.prio p; let pid ← Packet.pid p
   let b3 ← Packet.byte3 p
   let cc ← Packet.cc p
